@@ -8,6 +8,10 @@ Reads the CURRENT source of
   * database/records/base.py   the dataclass fields of Record (label, signature, raw_signature, line_number)
   * database/records_database.py   RecordsDatabase.__init__ (shape), create / _get / add (via translate/db2coq.py: gen_db_create /
                                gen_db_add over a dictionary model `gmap`; the step function calls them)
+  * database/records_database.py   READ side (db2coq.py): _get as a value (gen_db_get), iter_values, get_random (random.choice(l) is
+                               ASSUMED to be l[pick] for an extra argument pick; IndexError past the end), __len__, _replace;
+    database/database.py       Database.load (gen_Database_load : gmap -> list text -> gmap * res unit; always_path / open ASSUMED);
+    parse/parser.py            the line loop as gen_loop, _parse_file as gen__parse_file, parse_file (text pinned; I/O ASSUMED)
   * database/parse/utils.py    parsing_error_wrapper (shape checked: try: yield / except <E> as e: raise ParsingError(str(e), <line>) from e;
                                the caught classes are <E> and its subclasses as declared in pyp0f/exceptions.py)
   * database/parse/parser.py   SKIPPED_PARAMS, SKIPPED_LINES, _parse_section_type, _parse_direction, ParserState, _parse_section, and
@@ -952,6 +956,50 @@ def main():
         fail(ret, "_parse_file must return a state variable")
     rty = dict(tr.state_vars)[ret.value.id]
     parts.append("Definition gen_result (st : gst) : %s := %s st." % (COQ_TY[rty], ROLE[rty]))
+
+    # ---- the loop itself, _parse_file and parse_file (I/O assumed: `file` is the list of lines text-mode iteration yields)
+    if rty != "DB":
+        fail(ret, "_parse_file must return the database")
+    parts.append("(* `for line_number, line in enumerate(file, start=gen_first_line)`: enumerate counts up by one *)\n"
+                 "Fixpoint gen_loop (st : gst) (line_number : Z) (file : list text) : res gst :=\n"
+                 "  match file with [] => Ok st | line :: rest => (do st' <- gen_step_g st line_number line; gen_loop st' (line_number + 1) rest) end.")
+    parts.append("Definition gen__parse_file (file : list text) : res gmap :=\n  (do st <- gen_loop gen_st0 gen_first_line file; Ok (gen_result st)).")
+    f = pfns["parse_file"]
+    pinned = ("try:\n    with open(filepath, mode='r', encoding='utf-8') as file:\n        return _parse_file(file)\n"
+              "except (OSError, UnicodeDecodeError) as e:\n    raise DatabaseError(\"Can't read database file for parsing\") from e")
+    if [a.arg for a in f.args.args] != ["filepath"] or f.args.defaults or f.args.kwonlyargs or f.args.vararg or f.args.kwarg or f.decorator_list \
+            or ast.unparse(ast.Module(body=strip_doc(f.body), type_ignores=[])) != pinned:
+        fail(f, "parse_file: `with open(filepath, mode='r', encoding='utf-8') as file: return _parse_file(file)` inside try/except (OSError, UnicodeDecodeError) expected")
+    need_import(ps, "DatabaseError", "pyp0f.exceptions", "parser.py")
+    parts.append("(* parse_file(filepath): ASSUMED I/O -- open() succeeds and iterating the file yields the lines `file`; OSError /\n"
+                 "   UnicodeDecodeError (-> DatabaseError) are not modelled *)\n"
+                 "Definition gen_open_parse_file (file : list text) : res gmap := gen__parse_file file.")
+
+    # ---- the READ side of RecordsDatabase and Database.load
+    caught_by = {c: [ERR[x] for x in ERR if subclass_of(x, c)] for c in ERR}
+    need_import(rdb, "DatabaseError", "pyp0f.exceptions", "records_database.py")
+    ri = imports_of(rdb)
+    if ri.get("random") != ("random", None):
+        raise Unsupported("records_database.py: `import random` expected")
+    for n in rdb.body:
+        if isinstance(n, (ast.FunctionDef, ast.ClassDef)) and n.name != "RecordsDatabase":
+            fail(n, "unexpected definition in records_database.py")
+        if isinstance(n, ast.Assign) and not (len(n.targets) == 1 and is_name(n.targets[0]) and n.targets[0].id in ("T", "RecordsByDirection", "RecordsMapping")):
+            fail(n, "unexpected module-level assignment in records_database.py")
+    parts.extend(db2coq.translate_read(dmeth, caught_by))
+    dbm = load(repo, "pyp0f/database/database.py")
+    module_names(dbm, {"DEFAULT_DATABASE_PATH", "Database", "DATABASE"})
+    need_import(dbm, "parse_file", "pyp0f.database.parse.parser", "database.py")
+    need_import(dbm, "RecordsDatabase", "pyp0f.database.records_database", "database.py")
+    need_import(dbm, "always_path", "pyp0f.utils.path", "database.py")
+    dc = find_class(dbm, "Database")
+    if [ast.unparse(b) for b in dc.bases] != ["RecordsDatabase"] or dc.keywords or dc.decorator_list or list(methods(dc)) != ["load"]:
+        fail(dc, "class Database(RecordsDatabase) with the single method load expected")
+    for n in dc.body:
+        if not isinstance(n, ast.FunctionDef) and not (isinstance(n, ast.Expr) and isinstance(n.value, ast.Constant)):
+            fail(n, "unexpected member of class Database")
+    parts.append("(* Database.load(filepath): always_path / open ASSUMED; the argument of _replace is evaluated before _replace runs *)\n"
+                 + db2coq.translate_load(methods(dc)["load"]))
     open(out, "w").write("\n\n".join(parts) + "\n")
 
 
